@@ -57,6 +57,34 @@ pub fn run(tier: Tier) -> Run {
     run.add_all(b.viols.clone());
     run.merge_outcomes(&a.outcomes);
     run.merge_outcomes(&b.outcomes);
+    // ---- non-initial states: every continuation of depth <= D from larger prebuilt modules (two named functions with
+    //      3 and 1 blocks; a selection deep inside one of them; an open block holding instructions; a second open block)
+    let two_fns = vec![
+        BOp::BeginFunction, BOp::BeginBlock, BOp::Ret, BOp::BeginBlock, BOp::Ret, BOp::BeginBlock, BOp::Ret, BOp::EndFunction,
+        BOp::BeginFunction, BOp::BeginBlock, BOp::Ret, BOp::EndFunction, BOp::NameFunction(0), BOp::NameFunction(1),
+    ];
+    let mut prefixes: Vec<Vec<BOp>> = vec![two_fns.clone()];
+    for (f, b) in [(0usize, 2usize), (1, 0), (0, 0)] {
+        let mut p = two_fns.clone();
+        p.extend([BOp::SelectFunction(Some(f)), BOp::SelectBlock(Some(b))]);
+        prefixes.push(p);
+    }
+    prefixes.push(vec![BOp::BeginFunction, BOp::BeginBlock, BOp::Nop, BOp::Nop]);
+    prefixes.push(vec![BOp::BeginFunction, BOp::BeginBlock, BOp::Ret, BOp::BeginBlock, BOp::IAdd]);
+    let d_cont = tier.pick(3, 4);
+    let mut cont_transitions = 0u64;
+    for p in &prefixes {
+        let fp = |h: &[BOp]| {
+            let mut whole = p.clone();
+            whole.extend_from_slice(h);
+            bsys::to_step("C12", &whole, bsys::replay(&whole))
+        };
+        let e = xs::enumerate(&alpha, d_cont, &fp);
+        run.add_all(e.viols.clone());
+        run.merge_outcomes(&e.outcomes);
+        cont_transitions += e.transitions;
+    }
+    run.outcome("continuations_from_prebuilt_modules", cont_transitions);
     // ---- per method (vcalls --c12): every one of the 1149 instruction-emitting methods with no block selected
     let vcalls = crate::report::verif_root().join("harness").join("target").join("release").join("vcalls");
     match std::process::Command::new(&vcalls).arg("--c12").output() {
@@ -74,10 +102,10 @@ pub fn run(tier: Tier) -> Run {
     }
     run.require_outcome("per_method_calls_without_block");
     run.set("states", json!(b.states));
-    run.set("transitions", json!(a.transitions + b.transitions));
-    run.set("traces_validated_against_impl", json!(a.histories_replayed + b.histories_replayed));
+    run.set("transitions", json!(a.transitions + b.transitions + cont_transitions));
+    run.set("traces_validated_against_impl", json!(a.histories_replayed + b.histories_replayed + cont_transitions));
     run.set("max_depth", json!(b.max_depth));
-    run.set("bounds", json!({"alphabet": alpha.iter().map(bsys::op_str).collect::<Vec<_>>(), "full_enumeration_depth": d_enum, "closure_depth": d_clos}));
+    run.set("bounds", json!({"alphabet": alpha.iter().map(bsys::op_str).collect::<Vec<_>>(), "full_enumeration_depth": d_enum, "closure_depth": d_clos, "prebuilt_prefixes": prefixes.len(), "continuation_depth": d_cont}));
     run.set("bound_completed", json!({"enumeration_depth": a.depth_completed, "closure_depth": if b.depth_completed == usize::MAX { d_clos } else { b.depth_completed }}));
     run.set("enumeration", json!({"states": a.states, "transitions": a.transitions}));
     run.set("closure", json!({"states": b.states, "transitions": b.transitions, "per_depth_states": b.per_depth_states}));
